@@ -1316,7 +1316,12 @@ impl Value {
         let slice = PaddedSliceRead::new(buffer.as_mut_slice());
         let mut parser = Parser::new(slice).with_config(cfg);
         let mut vis = DocumentVisitor::new(json.len(), smut);
-        parser.parse_dom(&mut vis)?;
+        // strings are unescaped in place, so the padded buffer no longer equals the input when
+        // an error is raised: compute the line/column and the snippet from the original JSON
+        parser.parse_dom(&mut vis).map_err(|err| {
+            let index = err.offset();
+            crate::error::Error::syntax(err.error_code(), json, index)
+        })?;
         let idx = parser.read.index();
 
         // NOTE: root node should is the first node
